@@ -2129,6 +2129,11 @@ func (c *BytecodeCompiler) compileContinueExpressionNode(node *ast.ContinueExpre
 		}
 	}
 
+	if c.additionalAbortChecks {
+		// `continue` does not pass the check at the end of the loop body
+		c.emit(location.StartPos.Line, bytecode.CHECK_ABORT)
+	}
+
 	finallyCount := c.countFinallyInLoop(labelName)
 	if finallyCount <= 0 {
 		c.leaveScopeOnContinue(location.StartPos.Line, labelName)
@@ -9107,6 +9112,12 @@ func (c *BytecodeCompiler) emitCall(callInfo *vm.CallSiteInfo, location *positio
 func (c *BytecodeCompiler) compileCallMethod(receiverType types.Type, name value.Symbol, argCount int, loc *position.Location, tailCall bool) {
 	var fallback bool
 	var exact bool
+
+	if _, isSelf := receiverType.(types.Self); tailCall && c.additionalAbortChecks && !isSelf {
+		// a tail call replaces the current frame, it never reaches
+		// the check in front of the return
+		c.emit(loc.StartPos.Line, bytecode.CHECK_ABORT)
+	}
 
 	for {
 		switch narrowReceiverType := receiverType.(type) {
